@@ -16,13 +16,13 @@ Proof. exact (IOSpec.exec_non_action n ip h w v). Qed.
 Print Assumptions exec_non_action.
 
 Theorem print_spec n ip h w s :
-  exec (S (S n)) ip h w (VIO (IOPrint s)) = Done h {| w_in := w_in w; w_out := w_out w ++ s ++ [10%N] |} (inl VNil) 0.
+  exec (S (S n)) ip h w (VIO (IOPrint s)) = Done h (with_io w (w_in w) (w_out w ++ s ++ [10%N])) (inl VNil) 0.
 Proof. exact (IOSpec.print_spec n ip h w s). Qed.
 Print Assumptions print_spec.
 
 Theorem read_line_spec n ip h w l r :
   w_in w = l :: r ->
-  exec (S (S n)) ip h w (VIO IOInput) = Done h {| w_in := r; w_out := w_out w |} (inl (VStr l)) 0.
+  exec (S (S n)) ip h w (VIO IOInput) = Done h (with_io w r (w_out w)) (inl (VStr l)) 0.
 Proof. exact (IOSpec.read_line_spec n ip h w l r). Qed.
 Print Assumptions read_line_spec.
 
